@@ -1233,12 +1233,12 @@ def judge_run(run, g):
     return bad
 
 
-def check_group(ck, b, model, sc, gi, group, in_function, opts, asan, stats, shrink=True):
+def check_group(ck, b, model, sc, gi, group, in_function, opts, asan, stats, shrink=True, want_ir=True):
     if len(ck.violations) >= 10:   # systematically broken tree: enough replays, do not burn the time budget
         stats["skipped_groups"] = stats.get("skipped_groups", 0) + 1
         return
     gdir = os.path.join(sc, "g%d" % gi)
-    res = run_group(b, gdir, group, in_function, opts, asan, want_ir=True)
+    res = run_group(b, gdir, group, in_function, opts, asan, want_ir=want_ir)
     g = res["g"]
     failed = []  # (class, canonical what, detail, run)
     if res["cc"]:
@@ -1450,21 +1450,21 @@ def main():
                     cf.append(fn)
         for i in range(0, len(cf), per_group):
             gi += 1
-            jobs.append((gi, cf[i:i + per_group], inf, dict(decl=[0, 2], **{"import": [0, 2]}), False))
+            jobs.append((gi, cf[i:i + per_group], inf, dict(decl=[0, 2], **{"import": [0, 2]}), False, True))
         stats["corpus_functions"] = stats.get("corpus_functions", 0) + len(cf)
     for n, grp in enumerate(groups):
         gi += 1
         if ck.quick:
             opts = dict(decl=[0] if n % 2 == 0 else [2], **{"import": [2] if n % 2 == 0 else [0]})
         else:
-            opts = dict(decl=[0, 2] if n % 3 else [0, 1, 2], **{"import": [0, 2]})
-        asan = (n % 8 == 0) if ck.quick else (n % 5 == 0)
-        jobs.append((gi, grp, n % 3 == 1, opts, asan))
+            opts = dict(decl=[0, 2] if n % 4 else [0, 1, 2], **{"import": [0, 2]})
+        asan = (n % 8 == 0) if ck.quick else (n % 6 == 0)
+        jobs.append((gi, grp, n % 3 == 1, opts, asan, ck.quick or n % 2 == 0))
 
     def one(job):
-        gi_, grp, inf, opts, asan = job
+        gi_, grp, inf, opts, asan, want_ir = job
         try:
-            check_group(ck, b, model, sc, gi_, grp, inf, opts, asan, stats)
+            check_group(ck, b, model, sc, gi_, grp, inf, opts, asan, stats, want_ir=want_ir)
         except Exception as e:  # harness error, never silently dropped
             import traceback
             stats["model_mismatch"].append("harness error in group %d: %s %s" % (gi_, e, traceback.format_exc()[-600:]))
